@@ -153,6 +153,17 @@ def run_shard(spec):
             file_interface(col, c.get("class", "replay"), c["A"], c["B"], c.get("record"), tmp, r, c["file_interface"] == "subprocess")
         return col.result()
     subleft = spec["subproc"]
+    from .. import nbd as _nbd
+    import nbdime.diffing.notebooks as _dn
+    import nbdime.diffing.snakes as _sn
+    import nbdime.diff_utils as _du
+    _nbd.count_calls(col, {
+        "compare_cell_by_ids": _dn.compare_cell_by_ids, "compare_cell_strict": _dn.compare_cell_strict,
+        "compare_cell_moderate": _dn.compare_cell_moderate, "compare_cell_approximate": _dn.compare_cell_approximate,
+        "compare_output_strict": _dn.compare_output_strict, "compare_output_approximate": _dn.compare_output_approximate,
+        "_is_base64": _dn._is_base64, "diff_single_outputs": _dn.diff_single_outputs, "diff_attachments": _dn.diff_attachments,
+        "diff_mime_bundle": _dn.diff_mime_bundle, "compute_snakes_multilevel": _sn.compute_snakes_multilevel,
+        "flatten_list_of_string_diff": _du.flatten_list_of_string_diff, "_combine_ops": _du._combine_ops})
     for k in range(spec["pairs"]):
         gen = NBGen(r, exotic=(k % 3 == 0), hostile=True)
         cls, a, b, rec, waste = valid_pair(gen)
